@@ -56,14 +56,15 @@ Qed.
 Lemma chain_clean fuel codes s m rest ev l s' :
   pop_min (agenda s) = Some (m, rest) -> get_event (e_ev m) s = Some ev -> cbs ev = Some l ->
   cb_chain fuel codes (e_ev m) l (loop_start m rest s) s' -> step_clean fuel codes s.
-Proof. intros P G C Ch. unfold step_clean. rewrite P, G, C. left. eauto. Qed.
+Proof. intros P G C Ch. unfold step_clean. rewrite P, G, C. eauto. Qed.
 
 Lemma step_ok_clean fuel codes s s' : step fuel codes s = (s', ROk) -> step_clean fuel codes s.
 Proof.
   intros St. unfold step_clean. destruct (pop_min (agenda s)) as [[m rest]|] eqn:P; [|exact I].
   destruct (get_event (e_ev m) s) as [ev|] eqn:G.
   - destruct (cbs ev) as [l|] eqn:C; [|exact I].
-    destruct (step_invokes _ _ _ _ _ _ _ _ _ St P G C) as [[Ch _]|(pre & c & post & smid & _ & _ & _ & N)]; [eauto|contradiction].
+    destruct (step_invokes _ _ _ _ _ _ _ _ _ St P G C) as [[Ch _]|(pre & c & post & smid & _ & _ & _ & N)]; [eauto|].
+    exfalso. apply N. left. reflexivity.
   - unfold step in St. rewrite P, get_event_pop_state, G in St. discriminate.
 Qed.
 
@@ -159,10 +160,13 @@ Theorem callbacks_exactly_once fuel codes s s' r m rest ev l :
   get_event (e_ev m) s = Some ev -> cbs ev = Some l ->
   (* the list is taken away before the first callback runs *)
   get_event (e_ev m) (loop_start m rest s) = Some (ev_set_cbs None ev) /\
-  (* its elements are invoked in order, each once: all of them, or up to the first one that lets something escape *)
-  ((cb_chain fuel codes (e_ev m) l (loop_start m rest s) s' /\ r = check_failure (e_ev m) s') \/
+  (* its elements are invoked in order, each once: all of them (then step() answers as the event's outcome says, or raises
+     what the stop callback of run(until) raised), or up to the first one that lets something escape *)
+  ((cb_chain fuel codes (e_ev m) l (loop_start m rest s) s' /\
+    (r = check_failure (e_ev m) s' \/ is_exit r = true) /\
+    ((forall c, In c l -> is_stop_cb c = false) -> r = check_failure (e_ev m) s')) \/
    (exists pre c post smid, l = pre ++ c :: post /\ cb_chain fuel codes (e_ev m) pre (loop_start m rest s) smid /\
-                            run_cb fuel codes (e_ev m) c smid = (s', r) /\ r <> ROk)) /\
+                            run_cb fuel codes (e_ev m) c smid = (s', r) /\ ~ cb_ok c r)) /\
   (* and the event stays processed in every later state: nothing is invoked again, nothing can be appended *)
   (forall s'', later codes s' s'' -> exists ev'', get_event (e_ev m) s'' = Some ev'' /\ cbs ev'' = None).
 Proof.
@@ -298,9 +302,9 @@ Proof.
   intros U G P O Rf Oc.
   pose proof (proj2 U p pr P) as L.
   pose proof (grows_run_frag codes (resume (pcode pr) (pst pr) o) (feed_state e o s)) as G2. rewrite Rf in G2. cbn [fst] in G2.
-  assert (L2 : pev pr < length (events s2)).
-  { eapply grows_lt; [exact G2|]. eapply grows_lt; [apply grows_feed_state|exact L]. }
-  destruct (get_event_some _ _ L2) as (pe & Gpe). exists pe.
+  assert (L2 : pev_ok s2 pr).
+  { eapply pev_ok_grows; [exact G2|]. eapply pev_ok_grows; [apply grows_feed_state|exact L]. }
+  destruct L2 as (pe & Gpe & _). exists pe.
   assert (P2 : get_proc p s2 = Some pr).
   { pose proof (get_proc_run_frag codes (resume (pcode pr) (pst pr) o) p pr (feed_state e o s)) as X.
     rewrite get_proc_feed_state, Rf in X. exact (X P). }
@@ -318,7 +322,8 @@ Theorem failure_never_lost fuel codes t0 s s' r m rest ev l :
   later codes (init_state t0) s ->
   step fuel codes s = (s', r) -> pop_min (agenda s) = Some (m, rest) ->
   get_event (e_ev m) s = Some ev -> cbs ev = Some l ->
-  cb_chain fuel codes (e_ev m) l (loop_start m rest s) s' ->           (* every callback returned *)
+  cb_chain fuel codes (e_ev m) l (loop_start m rest s) s' ->           (* every callback was invoked *)
+  (forall c, In c l -> is_stop_cb c = false) ->                        (* e is not the until-event of the running run() *)
   exists ev', get_event (e_ev m) s' = Some ev' /\
     match out ev' with
     | Some (Fail x) => if defused ev' then r = ROk else r = RRaise x
@@ -326,7 +331,7 @@ Theorem failure_never_lost fuel codes t0 s s' r m rest ev l :
     | None => False
     end.
 Proof.
-  intros L St P G C Ch.
+  intros L St P G C Ch NS.
   pose proof (uinv_later _ _ _ L (uinv_init t0)) as U.
   destruct (pop_min_spec _ _ _ P) as (In_m & _ & _).
   destruct (proj1 U m In_m) as (ev0 & G0 & O0). rewrite G in G0. injection G0 as <-.
@@ -335,8 +340,14 @@ Proof.
   assert (O' : out ev' <> None) by (apply (le_out _ _ Le); exact O0).
   exists ev'. split; [exact G'|].
   assert (Rr : r = check_failure (e_ev m) s').
-  { unfold step in St. rewrite P, get_event_pop_state, G, C in St. fold (loop_start m rest s) in St.
-    rewrite (cb_chain_run _ _ _ _ _ _ Ch) in St. congruence. }
+  { destruct (step_invokes _ _ _ _ _ _ _ _ _ St P G C) as [(Ch2 & _ & X)|(pre & c & post & smid & E & Ch2 & Rc & N)].
+    - apply X, NS.
+    - exfalso. subst l. (* the chain through pre ++ c :: post says c was ok *)
+      clear - Ch Ch2 Rc N. revert Ch Ch2. generalize (loop_start m rest s). induction pre as [|a p IH]; intros s0 Ch Ch2.
+      + inversion Ch2; subst. inversion Ch; subst. rewrite Rc in *. match goal with A : (_, _) = (_, _) |- _ => injection A as <- <- end. contradiction.
+      + inversion Ch2; subst. inversion Ch; subst.
+        match goal with A : run_cb _ _ _ a s0 = _, B : run_cb _ _ _ a s0 = _ |- _ => rewrite A in B; injection B as <- <- end.
+        eapply IH; eassumption. }
   rewrite Rr. unfold check_failure. rewrite G'. destruct (out ev') as [[v|x]|]; [reflexivity| |contradiction].
   destruct (defused ev'); reflexivity.
 Qed.
@@ -348,8 +359,7 @@ Theorem failure_leaves_clean_state fuel codes s m rest ev l s' :
   fst (step fuel codes s) = s' /\ creach codes s'.
 Proof.
   intros R P G C Ch.
-  assert (E : fst (step fuel codes s) = s').
-  { unfold step. rewrite P, get_event_pop_state, G, C. fold (loop_start m rest s). now rewrite (cb_chain_run _ _ _ _ _ _ Ch). }
+  assert (E : fst (step fuel codes s) = s') by (eapply step_fst_chain; eauto).
   split; [exact E|]. rewrite <- E. apply cr_step; [exact R|]. eapply chain_clean; eauto.
 Qed.
 
